@@ -92,7 +92,7 @@ func genStoreCase(c *Cfg, i int, maxLen int) *StoreCase {
 	n := 1 + rg.IntN(maxLen)
 	nz := len(c14Zoo())
 	cs := &StoreCase{Family: "sequence"}
-	ops := []string{"merge-bulk", "set", "set", "set", "delete", "delete-missing", "merge", "merge-nil", "merge-own-getall", "merge-snapshot", "clear", "set-after-clear", "getall", "keys", "snap-set", "snap-delete", "keys-overwrite", "set-nil", "read-typed", "read-typed"}
+	ops := []string{"other-store", "merge-bulk", "set", "set", "set", "delete", "delete-missing", "merge", "merge-nil", "merge-own-getall", "merge-snapshot", "clear", "set-after-clear", "getall", "keys", "snap-set", "snap-delete", "keys-overwrite", "set-nil", "read-typed", "read-typed"}
 	for j := 0; j < n; j++ {
 		st := StoreStep{Op: ops[rg.IntN(len(ops))], Key: rg.IntN(len(storeKeys)), Val: rg.IntN(nz)}
 		switch st.Op {
@@ -157,6 +157,7 @@ func runStoreCaseProg(cs *StoreCase, z []zoo.Named, probe storeProbe, prog *atom
 	s := flyt.NewSharedStore()
 	ref := map[string]any{}
 	var snaps []*snapshot
+	var others []*flyt.SharedStore // stores created along the way (kept alive for a while)
 	fail := func(k, f string, a ...any) (string, string, map[string]int) {
 		return k, fmt.Sprintf(f, a...), stats
 	}
@@ -225,6 +226,16 @@ func runStoreCaseProg(cs *StoreCase, z []zoo.Named, probe storeProbe, prog *atom
 			}()
 			if s.Has("never-set") {
 				return "read-created-a-key", fmt.Sprintf("step %d (%s): after a series of typed reads (plain and Or-default getters, Bind) the store holds the key \"never-set\", which nobody ever set: a read is only a read", si, st.Op), stats
+			}
+		case "other-store": // another store comes into being, is filled, cleared and dropped next to this one: two stores share nothing
+			o := flyt.NewSharedStore()
+			o.Set(k, "other store's value")
+			o.Merge(map[string]any{"x": 1, k: 2})
+			o.Clear()
+			o.Set("left behind", si)
+			others = append(others, o)
+			if len(others) > 3 {
+				others = others[1:]
 			}
 		case "set-nil":
 			s.Set(k, nil)
